@@ -10,7 +10,7 @@ use crate::prng::Rng;
 use crate::rm::decide::{Carrier, Stage, Verdict};
 use crate::run::{finish, preflight, Ctx, Report, Tally, Tier};
 
-pub const MUTATIONS: [&str; 42] = [
+pub const MUTATIONS: [&str; 43] = [
     "structured-edit-auth",
     "timestamp-alias",
     "timestamp-reoffset",
@@ -53,6 +53,7 @@ pub const MUTATIONS: [&str; 42] = [
     "server-service",
     "token",
     "wire-uri-byte",
+    "auth-param-edge-obs-text",
 ];
 
 /// mutations that change signed content by construction: acceptance is a violation whatever the model says
@@ -613,6 +614,38 @@ pub fn shard(seed: u64, shard: u64, n: u64, tier: Tier) -> Tally {
                         continue;
                     }
                     (c, false)
+                } else if *m == "auth-param-edge-obs-text" {
+                    // one byte that Unicode-aware trimming takes for white space (NBSP 0xA0, NEL 0x85) or for nothing (soft
+                    // hyphen 0xAD) at an edge of an Authorization parameter: the signature, the credential or the signed list
+                    // is then another text than the one that was signed for
+                    let mut c = pcase.clone();
+                    let Some(h) = c.wire.headers.iter_mut().find(|(n, _)| n.eq_ignore_ascii_case(b"authorization")) else {
+                        t.count(&format!("inapplicable/{}", m));
+                        continue;
+                    };
+                    let v = &mut h.1;
+                    // edges: just before a ',' that ends a parameter, the very end, just after "Name="
+                    let mut edges: Vec<usize> = (0..v.len()).filter(|i| v[*i] == b',').collect();
+                    edges.push(v.len());
+                    for i in 0..v.len() {
+                        if v[i] == b'=' && i + 1 < v.len() {
+                            edges.push(i + 1);
+                        }
+                    }
+                    // (not inside the access key: that part of the credential is not signed content — which key is looked up
+                    // is C03's business — so a byte more there changes nothing that the signature covers)
+                    if let Some(cs) = v.windows(11).position(|w| w == b"Credential=") {
+                        let start = cs + 11;
+                        let end = v[start..].iter().position(|c| *c == b'/' || *c == b',').map(|k| start + k).unwrap_or(v.len());
+                        edges.retain(|e| *e < start || *e > end);
+                    }
+                    if edges.is_empty() {
+                        t.count(&format!("inapplicable/{}", m));
+                        continue;
+                    }
+                    let at = *mr.pick(&edges);
+                    v.insert(at, *mr.pick(&[0xa0u8, 0x85, 0xad]));
+                    (c, true)
                 } else if *m == "wire-uri-byte" {
                     // attacker edits one byte of the URI as sent
                     let mut c = pcase.clone();
@@ -1060,7 +1093,7 @@ pub fn run(tier: Tier) -> i32 {
     ctx.exhaustive("signature positions 0-63 on each sig-position parent", true);
     let rep = Report {
         level: "exploration",
-        rule: "W-mutate: accepted W-sign parents (both carriers, all option sets, tokens) × one change each from a 42-entry catalogue (path/query/header/body/form pairs/method/timestamp incl. out-of-range aliases of the same instant and the same digits under another offset/secret/signature incl. decorated and non-hex/SignedHeaders list/Authorization grammar/carrier/server scope/token/raw URI byte), the child carrying the parent's signature; plus every signature position × wrong digits; plus 'twin' pairs — 18 pairs of byte strings that lossy UTF-8 decoding, Latin-1/UTF-8 confusion, Unicode normalisation, case folding or invisible-character handling map to one another — placed in a signed header value, a query name or value, a path segment or a folded form value (the nineteenth pair is one of spellings: a control byte escaped `%0X` in the parent, the same wire text with `%+X` in the child): the parent carries one member and is accepted, the child carries the other under the parent's signature. Oracles: shadow verifier (on every success the presented signature must equal the reference HMAC, under the key the provider returned in that execution, of the reference string-to-sign of the request as received) and a model-free metamorphic rule for changes that alter signed content by construction. Non-trivial = a child the reference model refuses at the signature stage and the library refused with the signature-mismatch class (i.e. the comparison itself was exercised); distinct by case hash.".into(),
+        rule: "W-mutate: accepted W-sign parents (both carriers, all option sets, tokens) × one change each from a 43-entry catalogue (path/query/header/body/form pairs/method/timestamp incl. out-of-range aliases of the same instant and the same digits under another offset/secret/signature incl. decorated and non-hex/SignedHeaders list/Authorization grammar incl. one obs-text byte (NBSP, NEL, soft hyphen) at the edge of a parameter/carrier/server scope/token/raw URI byte), the child carrying the parent's signature; plus every signature position × wrong digits; plus 'twin' pairs — 18 pairs of byte strings that lossy UTF-8 decoding, Latin-1/UTF-8 confusion, Unicode normalisation, case folding or invisible-character handling map to one another — placed in a signed header value, a query name or value, a path segment or a folded form value (the nineteenth pair is one of spellings: a control byte escaped `%0X` in the parent, the same wire text with `%+X` in the child): the parent carries one member and is accepted, the child carries the other under the parent's signature. Oracles: shadow verifier (on every success the presented signature must equal the reference HMAC, under the key the provider returned in that execution, of the reference string-to-sign of the request as received) and a model-free metamorphic rule for changes that alter signed content by construction. Non-trivial = a child the reference model refuses at the signature stage and the library refused with the signature-mismatch class (i.e. the comparison itself was exercised); distinct by case hash.".into(),
         assumptions: vec![
             "HMAC-SHA256 unforgeability is assumed (cryptographic half of the statement)".into(),
             "reference model calibrated on the AWS vectors".into(),
